@@ -10,6 +10,7 @@ output, and re-running the region from a store in which everything but the
 reported inputs is undefined reproduces the outputs without reading an
 undefined value (replay clause).
 '''
+import os
 import re
 
 from pv import core, sem
@@ -80,6 +81,115 @@ def _lists_from_text(text):
         elif m and sect == "post":
             post.append(m.group(2).lower())
     return pre, post
+
+
+# ---- second family: non-local (module) variables reached through the call tree
+NL_HEAD = '''module nlmod
+  implicit none
+  real :: scale
+  real :: total
+  real, dimension(0:4) :: tab
+  integer :: cnt
+contains
+  subroutine s(x, n)
+    integer, intent(in) :: n
+    real, dimension(0:9), intent(inout) :: x
+    call top(x, n)
+  end subroutine s
+'''
+NL_BODIES = {
+    # name -> list of routines (name, dummy list, lines)
+    "readthenreset": [("top", "x, n", ["call apply_scale(x, n)", "call reset_scale()"]),
+                      ("apply_scale", "x, n", ["integer :: i", "do i = 1, n", "  x(i) = x(i) * scale",
+                                               "end do", "total = total + x(1)"]),
+                      ("reset_scale", "", ["scale = 1.0"])],
+    "resetthenread": [("top", "x, n", ["call reset_scale()", "call apply_scale(x, n)"]),
+                      ("apply_scale", "x, n", ["integer :: i", "do i = 1, n", "  x(i) = x(i) * scale",
+                                               "end do"]),
+                      ("reset_scale", "", ["scale = 2.0"])],
+    "counter": [("top", "x, n", ["call bump()", "x(cnt) = total", "call bump()"]),
+                ("bump", "", ["cnt = cnt + 1"])],
+    "table": [("top", "x, n", ["call filltab(n)", "x(1) = tab(2) + tab(n)"]),
+              ("filltab", "k", ["integer, intent(in) :: k", "tab(k) = 1.0"])],
+    "nested": [("top", "x, n", ["if (n > 1) then", "  call mid(x)", "end if", "x(0) = total"]),
+               ("mid", "x", ["real, dimension(0:9), intent(inout) :: x", "call leaf()", "x(2) = scale"]),
+               ("leaf", "", ["total = scale + 1.0", "scale = total"])],
+    "condwrite": [("top", "x, n", ["call maybe(n)", "x(1) = scale"]),
+                  ("maybe", "k", ["integer, intent(in) :: k", "if (k > 1) scale = 3.0"])],
+    "twice": [("top", "x, n", ["call apply_scale(x, n)", "call reset_scale()", "call apply_scale(x, n)"]),
+              ("apply_scale", "x, n", ["integer :: i", "do i = 1, n", "  x(i) = x(i) * scale", "end do"]),
+              ("reset_scale", "", ["scale = total"])],
+}
+NL_DOM = [("n", [0, 1, 3]), ("scale", [[1, 2]]), ("total", [[3, 1]]), ("cnt", [1])]
+
+
+def nl_items(tier):
+    out = []
+    for name, routines in NL_BODIES.items():
+        src = NL_HEAD
+        for rname, args, lines in routines:
+            decl = []
+            if "x" in args.split(", "):
+                if not any("x" in l and "dimension" in l for l in lines):
+                    decl.append("real, dimension(0:9), intent(inout) :: x")
+            if "n" in args.split(", "):
+                decl.append("integer, intent(in) :: n")
+            src += f"  subroutine {rname}({args})\n" + "".join("    " + l + "\n" for l in decl + lines) + \
+                f"  end subroutine {rname}\n"
+        src += "end module nlmod\n"
+        out.append((f"nl|{name}", src))
+    return out
+
+
+def _build_nl(item):
+    import tempfile
+    import shutil
+    from psyclone.parse import ModuleManager
+    from psyclone.psyir.tools import CallTreeUtils, ReadWriteInfo
+    pid, src = item
+    cid = pid
+    tmp = tempfile.mkdtemp(prefix="pv-c12-")
+    try:
+        with open(os.path.join(tmp, "nlmod.f90"), "w") as f:
+            f.write(src)
+        ModuleManager._instance = None        # fresh manager per case
+        mm = ModuleManager.get()
+        mm.add_search_path(tmp)
+        try:
+            cntr = mm.get_module_info("nlmod").get_psyir()
+            routine = cntr.get_routine_psyir("s")
+            ctu = CallTreeUtils()
+            todo = ctu.get_non_local_symbols(routine)
+            rwi = ReadWriteInfo()
+            ctu._resolve_calls_and_unknowns(todo, rwi)      # pylint: disable=protected-access
+            inputs = sorted({str(sig).lower() for _, sig in rwi.read_list})
+            outputs = sorted({str(sig).lower() for _, sig in rwi.write_list})
+        except Exception as err:   # noqa
+            return [{"id": cid, "status": "crash", "why": f"{type(err).__name__}: {err}"[:200]}]
+        finally:
+            ModuleManager._instance = None
+        psy = sem.parse(src)
+        r = sem.routine_named(psy, "s")
+        try:
+            ex = sem.Exporter()
+            ex.track_range = (r, 0, 1)
+            # the dummies of s are inputs of the replay as well (the property is about the
+            # module variables; x and n are passed explicitly)
+            ex.track_fields = {"inputs": inputs + ["x", "n"]}
+            prog = ex.routine(r)
+        except Unsupported as err:
+            return [{"id": cid, "status": "unsupported", "why": str(err)}]
+        names = {d["name"] for d in prog["decls"]}
+        modvars = [d["name"] for d in prog["decls"] if not d.get("arg")]
+        case = {"id": cid, "mode": "region", "decls": prog["decls"],
+                "dom": [[n, v] for n, v in NL_DOM if n in names], "fills": FILLS,
+                "subs": prog["subs"], "body": prog["body"],
+                "inputs": inputs + ["x", "n"], "outputs": outputs + ["x"]}
+        return [{"id": cid, "status": "ok", "case": case, "region": "call top(x, n)  [module variables "
+                 + ", ".join(modvars) + "]", "src": src, "inputs": inputs, "outputs": outputs,
+                 "source": "get_non_local_symbols + _resolve_calls_and_unknowns", "extract": "n/a"}]
+    finally:
+        shutil.rmtree(tmp, ignore_errors=True)
 
 
 def _build(item):
@@ -221,6 +331,7 @@ def run(tier):
     core.setup_psyclone_env()
     out = core.Outcome("C12", tier, "model_checking", matchers=MATCHERS)
     results = [r for part in core.pool_map(_build, items(tier), chunksize=1) for r in part]
+    results += [r for part in core.pool_map(_build_nl, nl_items(tier), chunksize=1) for r in part]
     stat = {}
     for r in results:
         stat[r["status"]] = stat.get(r["status"], 0) + 1
